@@ -134,7 +134,7 @@ public:
   }
   virtual bool punch_open(const char *file_name, std::ios_base::openmode mode, int n_user) {
     std::ostringstream o;
-    o << "{\"k\":\"popen\",\"n\":" << n_user << ",\"name\":" << jstr(file_name) << "}";
+    o << "{\"k\":\"popen\",\"n\":" << n_user << ",\"fon\":" << (get_sel_out_file_on(n_user) ? 1 : 0) << ",\"name\":" << jstr(file_name) << "}";
     rec(o.str());
     Guard g(depth); return IPhreeqc::punch_open(file_name, mode, n_user);
   }
